@@ -64,6 +64,107 @@ def _switch_edges(F, body, du, pred):
     return out
 
 
+# ---------------------------------------------------------------------------------------
+# The one-byte read extracted into a private helper of the reader (`async fn read_byte(&mut self) -> Result<Option<u8>>`):
+# the helper's coroutine body holds the Read::read, the reader's loop tests the helper's result. The helper is summarised
+# (one read, not repeated, one-byte buffer, Ok(None) exactly on the zero-count edge, Ok(Some(that byte)) exactly on the
+# non-zero edge); in the reader the call of the helper then stands for the read, the `None` edge for the zero-count edge
+# and the local bound to the `Some` payload for the byte.
+def _private_read_helpers(F, body):
+    """Roots of non-public functions of the source file of `body` that `body` calls and that call Read::read themselves."""
+    out = []
+    for blk, t in body.calls():
+        c = t['f'].get('def')
+        sig = F.fns.get(c) if c else None
+        if sig is None or sig.get('vis') == 'pub' or c in out or c == body.root or c not in F.by_root:
+            continue
+        hb = F.bodies.get(c)
+        if hb is None or hb.file != body.file:
+            continue
+        if any(Q.find_calls(x, READ) for x in F.logical(c)):
+            out.append(c)
+    return out
+
+
+def _byte_helper_summary(F, root):
+    """{'root', 'body', 'rb', 'rt', 'byte_local' (None: the buffer is not slice::from_mut(&mut u8)), 'problem' (None: the helper
+    returns Ok(None) exactly when the read count is 0 and Ok(Some(byte read)) exactly when it is not)}"""
+    H = F.main_body(root)
+    du = Q.DefUse(H)
+    out = {'root': root, 'body': H, 'rb': None, 'rt': None, 'byte_local': None, 'problem': None}
+    reads = Q.find_calls(H, READ)
+    if len(reads) != 1 or any(Q.find_calls(x, READ) for x in F.logical(root) if x.fn != H.fn):
+        out['problem'] = 'helper %s does not contain exactly one Read::read call' % root
+        if reads:
+            out['rb'], out['rt'] = reads[0]
+        return out
+    rb, rt = reads[0]
+    out['rb'], out['rt'] = rb, rt
+    out['byte_local'] = byte_local = _read_byte_local(H, du, rt)
+    if byte_local is None:
+        return out
+    if any(rb in H.reachable(s) for s in H.succ(rb)):
+        out['problem'] = 'helper %s repeats its read' % root
+        return out
+    zero = _zero_count_edges(F, H, du)
+    if not zero:
+        out['problem'] = 'helper %s does not test the read count against 0' % root
+        return out
+    after_zero = set()
+    for u, v in zero:
+        after_zero |= H.reachable(v)
+    not_zero = set()
+    for s in H.succ(rb):
+        not_zero |= H.reachable(s, removed_edges=zero)
+    kinds = set()
+    for blk, j, st in Q.find_aggregates(H, 'core::result::Result', 'Ok'):
+        if st['lhs']['l'] != 0 or st['lhs'].get('p'):
+            continue
+        org = du.origin(st['rv']['ops'][0])
+        kind = None
+        if org['k'] == 'agg' and org['rv'].get('adt') == 'core::option::Option':
+            if org['rv'].get('variant') == 'None':
+                kind = 'none'
+            elif org['rv'].get('variant') == 'Some':
+                l = Q.operand_local(org['rv']['ops'][0])
+                if l is not None and _copy_of(du, l, byte_local):
+                    kind = 'some'
+        if kind == 'none' and blk not in not_zero:
+            kinds.add(kind)
+        elif kind == 'some' and blk not in after_zero:
+            kinds.add(kind)
+        else:
+            out['problem'] = ('helper %s: the Ok(..) value returned at %s is not Ok(None) on the zero-count edge / Ok(Some(byte read)) '
+                              'on the non-zero edge' % (root, H.loc(st)))
+            return out
+    if kinds != {'none', 'some'}:
+        out['problem'] = 'helper %s does not return both Ok(None) (end of input) and Ok(Some(byte))' % root
+    return out
+
+
+def _helper_call_model(F, body, du, cb, ct):
+    """In the reader: (byte local bound to the Some payload of the helper's result or None, None edges, Some edges)."""
+    def from_call(pl):
+        src = Q.value_source(body, du, {'cp': {'l': pl['l']}})
+        return src is ct
+    byte_locals = set()
+    for blk, j, st in body.stmts():
+        if st['k'] != 'assign' or st['rv']['k'] != 'use' or st['lhs'].get('p'):
+            continue
+        pl = Q.operand_place(st['rv']['o'])
+        proj = (pl or {}).get('p') or []
+        if len(proj) >= 2 and isinstance(proj[-2], dict) and proj[-2].get('v') == 'Some' and isinstance(proj[-1], dict) \
+                and proj[-1].get('adt') == 'core::option::Option' and proj[-1].get('ty') == 'u8' and from_call(pl):
+            byte_locals.add(st['lhs']['l'])
+
+    def opt(org):
+        return org['k'] == 'discr' and str(org['ty']).replace(' ', '') == 'core::option::Option<u8>' and from_call(org['pl'])
+    none = [(b, tgt) for b, tgt, lab, org in _switch_edges(F, body, du, lambda org, lab: opt(org) and lab == ('variant', 'None'))]
+    some = [(b, tgt) for b, tgt, lab, org in _switch_edges(F, body, du, lambda org, lab: opt(org) and lab == ('variant', 'Some'))]
+    return (next(iter(byte_locals)) if len(byte_locals) == 1 else None), none, some
+
+
+
 @RS.rule('C18.R1', 'K-EFFECT', 'FdReader2::next_line reads one byte at a time, keeps every byte, and stops at newline / EOF / error')
 def r1(cx):
     F = cx.F
@@ -71,13 +172,38 @@ def r1(cx):
     cx.fn(body.fn)
     du = Q.DefUse(body)
     reads = Q.find_calls(body, READ)
-    cx.require(len(reads) >= 1, 'no Read::read call in FdReader2::next_line')
-    for rb, rt in reads:
-        cx.site('%s: Read::read at %s' % (body.fn, body.loc(rt)))
+    # the read moved into a private helper of the reader (`read_byte`): the call of the helper stands for the read
+    models = [(rb, rt, None) for rb, rt in reads]
+    for h in _private_read_helpers(F, body):
+        sm = _byte_helper_summary(F, h)
+        cx.fn(sm['body'].fn)
+        for cb, ct in Q.find_calls(body, [h]):
+            models.append((cb, ct, sm))
+    cx.require(len(models) >= 1, 'no Read::read call in FdReader2::next_line')
+    for rb, rt, sm in models:
+        helper_zero = helper_nonzero = None
+        if sm is not None:
+            H = sm['body']
+            cx.require(sm['rt'] is not None, sm['problem'] or 'helper without read')
+            cx.site('%s: Read::read at %s in the private helper %s, called at %s' % (body.fn, H.loc(sm['rt']), sm['root'], body.loc(rt)))
+            if sm['byte_local'] is None and len(Q.find_calls(H, READ)) == 1:
+                cx.violation(FDR, 'buffer-not-one-byte',
+                             'the buffer given to read is not slice::from_mut(&mut u8): a read may take bytes that follow '
+                             'the newline from the descriptor, so they are lost to commands (e.g. `read`) sharing the input',
+                             loc=H.loc(sm['rt']))
+                continue
+            cx.require(sm['problem'] is None, '%s (shape not understood: review)' % sm['problem'])
+            byte_local, helper_zero, helper_nonzero = _helper_call_model(F, body, du, rb, rt)
+            cx.require(byte_local is not None, 'the byte returned by helper %s is not bound from the Some payload of its result in '
+                       'FdReader2::next_line (shape not understood: review)' % sm['root'])
+            one = True
+        else:
+            cx.site('%s: Read::read at %s' % (body.fn, body.loc(rt)))
         # the buffer: slice::from_mut(&mut <u8 local>)  (static length 1)
-        src = Q.value_source(body, du, rt['a'][-1])
-        one = False
-        byte_local = None
+        src = Q.value_source(body, du, rt['a'][-1]) if sm is None else None
+        if sm is None:
+            one = False
+            byte_local = None
         if src is not None and Q.callee_is(src, ['core::slice::raw::from_mut']):
             org = du.origin(src['a'][0])
             if org['k'] == 'ref':
@@ -117,7 +243,7 @@ def r1(cx):
             return lab == ('int', 0) and org['k'] == 'place' and \
                 any(isinstance(e, dict) and e.get('v') == 'Ok' for e in (org['pl'].get('p') or [])) and \
                 _from_read(body, du, org['pl'])
-        zero = _switch_edges(F, body, du, is_count_zero)
+        zero = _switch_edges(F, body, du, is_count_zero) if sm is None else [(b, tgt, None, None) for b, tgt in helper_zero]
         if not zero:
             cx.violation(FDR, 'no-eof-test', 'the read count is not tested against 0: end of input is not recognised', loc=body.loc(rt))
         for b, tgt, lab, org in zero:
@@ -162,7 +288,8 @@ def r1(cx):
                   if Q.operand_local(t['a'][1]) is not None and _base_local(du, Q.operand_local(t['a'][1])) == byte_local]
         nonzero = [(b, tgt) for b, tgt, lab, org in _switch_edges(
             F, body, du, lambda org, lab: cmp_zero(org, lab) is False or (lab == ('else',) and org['k'] == 'place' and
-            any(isinstance(e, dict) and e.get('v') == 'Ok' for e in (org['pl'].get('p') or [])) and _from_read(body, du, org['pl'])))]
+            any(isinstance(e, dict) and e.get('v') == 'Ok' for e in (org['pl'].get('p') or [])) and _from_read(body, du, org['pl'])))] \
+            if sm is None else helper_nonzero
         cx.require(nonzero, 'non-zero count edge not found')
         for b, tgt in nonzero:
             goals = set(body.return_blocks()) | {rb} | {x[0] for x in nl}
@@ -171,7 +298,7 @@ def r1(cx):
             if p:
                 cx.violation(FDR, 'byte-dropped', 'a byte obtained from the descriptor is not appended to the line',
                              loc=body.loc(rt), path=Q.render_path(body, p))
-    cx.sample({'function': body.fn, 'reads': [body.loc(t) for _, t in reads]})
+    cx.sample({'function': body.fn, 'reads': [body.loc(t) for _, t, _ in models]})
 
 
 def _base_local(du, l):
@@ -484,6 +611,20 @@ READ_SITES = {
 }
 
 
+def _inherited_reader_class(F, b):
+    sig = F.fns.get(b.root)
+    if sig is None or sig.get('vis') == 'pub' or ' as ' in b.root:
+        return None
+    callers = F.callers_of(lambda names, t: b.root in names)
+    owners = {c.root for c, _, _ in callers}
+    if len(owners) != 1:
+        return None
+    owner = next(iter(owners))
+    if READ_SITES.get(owner) != 'one-byte' or any(c.file != b.file for c, _, _ in callers):
+        return None
+    return 'one-byte'
+
+
 @RS.rule('C18.R1b', 'K-EFFECT', 'every reader of a shared descriptor (script input, the read built-in) asks the system for exactly one byte at a time')
 def r1b(cx):
     F = cx.F
@@ -491,6 +632,10 @@ def r1b(cx):
     cx.floor(len(sites), 4, 'Read::read call sites')
     for b, blk, t in sites:
         cls = READ_SITES.get(b.root)
+        if cls is None:
+            # a private helper of a reviewed one-byte reader, called only by that reader, is part of it: it inherits the
+            # review, and the buffer it passes is checked like the reader's own
+            cls = _inherited_reader_class(F, b)
         cx.site('%s: read at %s -> %s' % (b.root, b.loc(t), cls))
         cx.fn(b.root)
         if cls is None:
@@ -712,7 +857,8 @@ def r7(cx):
     F = cx.F
     roots = sorted(r for r in F.by_root if NEXT_LINE_IMPL.search(r))
     cx.require(roots, 'no implementation of yash_env::input::Input::next_line found')
-    readers = [r for r in roots if any(Q.find_calls(b, READ) for b in F.logical(r))]
+    # a reader whose one-byte read lives in a private helper of its source file (`read_byte`) is a reader too
+    readers = [r for r in roots if any(Q.find_calls(b, READ) for b in F.logical(r)) or _private_read_helpers(F, F.main_body(r))]
     cx.require(FDR in readers, 'FdReader2::next_line is not among the Input::next_line implementations that call Read::read')
     cx.floor(len(readers), 1, 'Input::next_line implementations that read a descriptor')
     for root in readers:
@@ -720,7 +866,12 @@ def r7(cx):
         body = F.inlined(F.main_body(root), accept=_same_file_private(F, F.main_body(root)))
         cx.fn(body.fn)
         du = Q.DefUse(body)
-        reads = Q.find_calls(body, READ)
+        reads = [(rb, rt, None) for rb, rt in Q.find_calls(body, READ)]
+        for h in _private_read_helpers(F, body):
+            sm = _byte_helper_summary(F, h)
+            cx.fn(sm['body'].fn)
+            for cb, ct in Q.find_calls(body, [h]):
+                reads.append((cb, ct, sm))
         cx.require(reads, '%s: Read::read is not called from the body of the reader itself (shape changed: review)' % root)
         # where the line is produced: UTF-8 conversions (also inside closures built here) and Ok(..) results
         decode = [(b, t, pp.callee(t)) for b, t in body.calls() if Q.callee_is(t, [UTF8_DECODE])]
@@ -737,12 +888,24 @@ def r7(cx):
         cx.require(decode, '%s: no UTF-8 conversion (String::from_utf8 / from_utf8_lossy / str::from_utf8 ...) is visible in the reader: '
                    'how the bytes of a line become text can not be decided (review)' % root)
         goals = {b for b, _, _ in decode} | {b for b, _ in oks}
-        for rb, rt in reads:
-            byte_local = _read_byte_local(body, du, rt)
-            if byte_local is None:
-                cx.site('%s: Read::read at %s: the buffer is not slice::from_mut(&mut u8) (reported by R1/R1b); line ends not examined' % (root, body.loc(rt)))
-                continue
-            ends = _newline_edges(F, body, du, byte_local) | _zero_count_edges(F, body, du)
+        for rb, rt, sm in reads:
+            if sm is not None:
+                # the call of the helper stands for the read, its `None` edge for the zero-count edge, the Some payload for the byte
+                if sm['rt'] is not None and sm['byte_local'] is None and len(Q.find_calls(sm['body'], READ)) == 1:
+                    cx.site('%s: Read::read at %s (helper %s): the buffer is not slice::from_mut(&mut u8) (reported by R1/R1b); line ends '
+                            'not examined' % (root, sm['body'].loc(sm['rt']), sm['root']))
+                    continue
+                cx.require(sm['problem'] is None, '%s (shape not understood: review)' % sm['problem'])
+                byte_local, none_edges, _some = _helper_call_model(F, body, du, rb, rt)
+                cx.require(byte_local is not None, '%s: the byte returned by helper %s is not bound from the Some payload of its result '
+                           '(shape not understood: review)' % (root, sm['root']))
+                ends = _newline_edges(F, body, du, byte_local) | set(none_edges)
+            else:
+                byte_local = _read_byte_local(body, du, rt)
+                if byte_local is None:
+                    cx.site('%s: Read::read at %s: the buffer is not slice::from_mut(&mut u8) (reported by R1/R1b); line ends not examined' % (root, body.loc(rt)))
+                    continue
+                ends = _newline_edges(F, body, du, byte_local) | _zero_count_edges(F, body, du)
             cx.site('%s: Read::read at %s; line-end edges (newline byte / zero count): %s; line produced at %s'
                     % (root, body.loc(rt), sorted('bb%d->bb%d' % e for e in ends), sorted({body.loc(x) for _, x, _ in decode} | {body.loc(s) for _, s in oks})))
             reach = set()
